@@ -50,6 +50,16 @@ CLAIMED = {
   text="Decides for all schemas and all skip policies that no skippable change kind can reach a differ result or a nested Changes field without passing the skip filter (clause 2 of the property in full), that the CLI policy fields and the prototype list agree, that every inspector hands out results only through ExcludeRealm/ExcludeSchema with the option's patterns, that the exclusion loops apply every pattern to every resource and keep unmatched resources unconditionally, and that no pattern error is overwritten unread.",
   note="Not decided: glob and [type=…] selector matching semantics; that excluded resources referenced by kept ones (foreign keys to excluded tables) are handled. Reflection in Skipped/Options is modelled by hand (type identity). ",
   ref="DESIGN.md §3 C19"),
+ "C07": dict(
+  technique="static analysis: table agreement between templates (text/template/parse), scanner constants, regexp/syntax of the pragma filters, format-verb lint of planner comments, escape/scan option agreement",
+  text="Decides the structural agreements the round trip depends on, for every plan: each template prints a statement directly followed by the scanner's delimiter and a newline; no planner comment can carry a newline (only %q/%d/%T of dynamic values); the third-party pragma filters match only pragma lines; a dialect that escapes with backslashes scans with BackslashEscapes; every quoting helper escapes its own closing quote; import stores statement i at index i with comments before text. These are agreements between components written in different files, which is exactly what a table-extraction check compares and a golden test of one component cannot.",
+  note="Not decided: byte-exact round trip of arbitrary strings through builder+template+scanner (would need executing them), third-party formats beyond the pragma filters, custom delimiters chosen by users that occur inside statements. ",
+  ref="DESIGN.md §3 C07"),
+ "C10": dict(
+  technique="static analysis: abstract interpretation of migrateApplyRun + tx multiplexer (typestate of the open transaction, identity of driver / revision-writer pair) + go/cfg effect-ordering rules on Executor.Execute + binding shape rules",
+  text="Decides the ordering facts crash consistency rests on, for every path: in file/all modes the executor's driver and its revision writer both belong to the currently open transaction and commits happen only after Execute returned nil at the documented points; in every mode a statement is executed before its revision row is updated, the row is written before the next statement, and a row is never counted on a failed statement; the revision writer executes through the driver of the client it was created for and a TxClient's driver is opened on the transaction it commits. A crash skips deferred code, so the property reduces to this order of effects, which path rules decide at every program point rather than at sampled crash points.",
+  note="Not decided: atomicity/durability of the engine at a crash (COMMIT all-or-nothing, implicit rollback of an open transaction), torn writes inside SQLite. No crash hooks are used (hook_needed of the property belongs to a dynamic technique). ",
+  ref="DESIGN.md §3 C10"),
 }
 
 NA = {}
